@@ -182,6 +182,20 @@ Theorem C13_confined_file : forall file pathfs fs vb domain local,
 Proof. exact user_exists_file_safe. Qed.
 Print Assumptions C13_confined_file.
 
+(** RCPT TO:<local@[ip]> (address literal; fixes/C13-ipv6-literal.diff): accepted only when the bracketed text,
+    without an "IPv6:" tag in any case, is the local address of the connection AND the mailbox exists in the
+    domain liphost; every refusal is a "550 5.1.1" reply; an error only after a hard lookup failure. *)
+Theorem C13_reply_literal : forall localip liphost db fs vb local iptext,
+  let l := map to_lower local in
+  domain_found db liphost ->
+  match fst (addrparse_literal localip liphost db fs vb local iptext) with
+  | RAccept => literal_is_local localip (map to_lower iptext) = true /\ mailbox fs vb l
+  | RNoUser text => (literal_is_local localip (map to_lower iptext) = false \/ ~ mailbox fs vb l) /\ exists t, text = REPLY_550 ++ t
+  | RError e => 0 < e /\ io_error fs vb l
+  end.
+Proof. exact literal_reply_sound. Qed.
+Print Assumptions C13_reply_literal.
+
 (** ** an already filled struct userconf (the global cache used for MAIL FROM; fixes/C13-dirfd-leak.diff) *)
 
 (** Whatever the structure holds from earlier calls (a stored path ends with the '/' vget_dir() appends):
